@@ -117,8 +117,8 @@ def check_case(acc, cfg, env_seq, cover, split=None):
         return
     obs = m.observe()
     if len(obs['time']) != n:
-        acc.violation('C13/harness/instant-count', 'harness expected n instants', case, {'got': len(obs['time'])})
-        return
+        acc.outcomes['instant-count-differs-from-request'] += 1      # C11's business
+        n = min(n, len(obs['time']))
 
     def emit(sfx, clause, k, detail):
         dd = dict(detail)
